@@ -16,6 +16,10 @@
 //!                                  `OK t=<tokens> n=<value readers visited>`; `RUNAWAY..` when an iterator
 //!                                  yields more items than the tape has tokens; `BADUTF8` when json().to_string()
 //!                                  (from_utf8_unchecked) is not UTF-8.
+//!   c05.npv <hex> <tape>           side condition of the write_tape no-crash theorems (Props/C05_wtape.v) on the REAL tape:
+//!                                  "1" when no ValueReader that fields() / values() / remainder() hand out anywhere in
+//!                                  the document sits on a Parameter / UndefinedParameter token (write_value's
+//!                                  unreachable!() arms), "0" otherwise; model side: WriteTapeSide.no_param_valuesb
 //!   c05.trops <cap|slice> <sched> <hex> <ops>   a sequence of calls on ONE text TokenReader, state carried from call
 //!                                  to call and across failing calls (a caller that retries): n = next, r = read (the
 //!                                  only public reader method no other kind calls directly), k = skip_container,
@@ -117,6 +121,7 @@ fn opts(k: usize) -> JsonOptions {
 struct St {
     cap: usize,
     nodes: usize,
+    params: usize,
     k: usize,
     bad: Option<&'static str>,
 }
@@ -130,6 +135,11 @@ impl St {
             false
         }
     }
+}
+
+/// every &str / String the API hands out is re-validated: several of them are made with from_utf8_unchecked
+fn valid(s: &str) -> bool {
+    std::str::from_utf8(std::hint::black_box(s.as_bytes())).is_ok()
 }
 
 fn touch_token(t: &TextToken) -> usize {
@@ -182,6 +192,10 @@ fn walk_object<E: Encoding + Clone>(o: &ObjectReader<E>, st: &mut St, depth: usi
             return;
         }
         let _ = (key.read_str().len(), key.read_string().len(), key.read_scalar().as_bytes().len(), touch_token(key.token()));
+        if !valid(&key.read_str()) || !valid(&key.read_string()) {
+            st.bad = Some("BADUTF8-key");
+            return;
+        }
         let rk = Reader::Scalar(key.clone());
         let _ = (rk.read_str().is_ok(), rk.read_string().is_ok(), rk.read_scalar().is_ok());
         if let Some(op) = op {
@@ -189,8 +203,25 @@ fn walk_object<E: Encoding + Clone>(o: &ObjectReader<E>, st: &mut St, depth: usi
         }
         walk_value(&v, st, depth + 1);
     }
+    // the tail of an object that turned into an array: write_tape does not write it (documented), so a parameter
+    // token standing directly in the tail is not a *value* write_value can meet; everything nested inside is
     let rem = fields.remainder();
-    walk_array(&rem, st, depth + 1);
+    let _ = (rem.len(), rem.is_empty(), rem.tokens_len(), rem.values().size_hint());
+    let mut n = 0;
+    for v in rem.values() {
+        n += 1;
+        if st.over(n, "RUNAWAY-values") || st.bad.is_some() {
+            return;
+        }
+        let own = matches!(v.token(), TextToken::Parameter(_) | TextToken::UndefinedParameter(_));
+        walk_value(&v, st, depth + 1);
+        if own {
+            st.params -= 1;
+        }
+    }
+    st.k += 1;
+    let mut w = LimitedWriter { n: 0, keep: None };
+    let _ = rem.json().with_options(opts(st.k)).to_writer(&mut w);
     let mut groups = o.field_groups();
     let _ = groups.size_hint();
     let mut g = 0;
@@ -225,7 +256,14 @@ fn walk_value<E: Encoding + Clone>(v: &ValueReader<E>, st: &mut St, depth: usize
         return;
     }
     let _ = touch_token(v.token());
+    if matches!(v.token(), TextToken::Parameter(_) | TextToken::UndefinedParameter(_)) {
+        st.params += 1;
+    }
     let _ = (v.tokens_len(), v.read_scalar().is_ok(), v.read_str().is_ok(), v.read_string().is_ok());
+    if v.read_str().map(|x| !valid(&x)).unwrap_or(false) || v.read_string().map(|x| !valid(&x)).unwrap_or(false) {
+        st.bad = Some("BADUTF8-value");
+        return;
+    }
     let rv = Reader::Value(v.clone());
     let _ = (rv.read_str().is_ok(), rv.read_string().is_ok(), rv.read_scalar().is_ok());
     st.k += 1;
@@ -305,7 +343,7 @@ fn dom(data: &[u8]) -> String {
     let cap = tape.tokens().len() + 2;
     let mut total = 0;
     for enc in 0..2 {
-        let mut st = St { cap, nodes: 0, k: enc * 7, bad: None };
+        let mut st = St { cap, nodes: 0, params: 0, k: enc * 7, bad: None };
         let bad = if enc == 0 {
             dom_root(&tape, tape.windows1252_reader(), Windows1252Encoding::new(), &mut st)
         } else {
@@ -319,6 +357,22 @@ fn dom(data: &[u8]) -> String {
     format!("OK t={} n={}", tape.tokens().len(), total)
 }
 
+fn npv(data: &[u8], tape_str: &str) -> String {
+    let tape = match TextTape::from_slice(data) {
+        Ok(t) => t,
+        Err(_) => return "ERR".to_string(),
+    };
+    if crate::fams::fam_texttape::show_tokens(tape.tokens()) != tape_str {
+        return "TAPE-MISMATCH".to_string();
+    }
+    let mut st = St { cap: tape.tokens().len() + 2, nodes: 0, params: 0, k: 0, bad: None };
+    walk_object(&tape.windows1252_reader(), &mut st, 0);
+    match st.bad {
+        Some(b) => b.to_string(),
+        None => ((st.params == 0) as u8).to_string(),
+    }
+}
+
 fn show_err(e: jomini::Error) -> usize {
     let n = format!("{}", e).len() + format!("{:?}", e).len() + e.offset().unwrap_or(0).min(1) + e.kind().offset().unwrap_or(0).min(1);
     let _ = std::error::Error::source(&e).is_some();
@@ -330,6 +384,9 @@ fn textapi(data: &[u8]) -> String {
     let mut acc = 0usize;
     let s = Scalar::new(data);
     acc += s.is_ascii() as usize + format!("{}", s).len() + format!("{:?}", s).len() + s.as_bytes().len();
+    if !valid(&format!("{}", s)) || !valid(&format!("{:?}", s)) || !valid(&Windows1252Encoding::decode(data)) || !valid(&Utf8Encoding::decode(data)) {
+        return "BADUTF8-scalar".to_string();
+    }
     // zero-copy reader: Token::as_scalar, error accessors
     let mut rd = jomini::text::TokenReader::from_slice(data);
     let mut toks = 0usize;
@@ -656,6 +713,7 @@ pub fn dispatch(kind: &str, a: &[&str]) -> Option<String> {
             "OK".to_string()
         }
         ("c05.dom", [h]) => dom(&unhex(h)),
+        ("c05.npv", [h, tape]) => npv(&unhex(h), tape),
         ("c05.trops", [cap, sched, h, ops]) => {
             let d = unhex(h);
             let n = d.len();
